@@ -5,6 +5,7 @@ import json, re, sys
 sys.path[:0] = ["/verif", "/repo"]
 import vf.avpgen as G
 G._REF = {}
+import props.c09  # noqa: imports every bromelia.lib.*.messages module, which registers the remaining AVP modules (ts_132_299)
 from bromelia.definitions import diameter_avps
 docs = {}
 for line in open("/repo/docs/list-of-avps.md"):
